@@ -122,6 +122,9 @@ func checkTrie(rp *reporter, idx int) {
 		r.Case(fmt.Sprintf("trie-p%v-n%d-%s", c.Poseidon, len(c.Items), want.String()))
 	}
 	r.Count("tries", 1)
+	if c.Twins {
+		r.Count("tries.with_twin_leaves(identical sibling subtrees)", 1)
+	}
 	switch len(c.Items) {
 	case 0:
 		r.Count("tries.empty", 1)
@@ -200,7 +203,7 @@ func TestC10(t *testing.T) {
 	r.Finish("case = (a) leaf set of height 251 (Pedersen or Poseidon; empty, 1, 2, 3, 4-25, 40-120 leaves; clustered keys) built in core/trie and core/trie2: "+
 		"Prove+VerifyProof for present keys, for a present key with each bit 0..250 flipped, random keys and the extremes, checked on the native node set, on a freshly rebuilt node set and by an "+
 		"independent verifier; ~40 tamper operators per sampled proof judged by 'accepted => truth'; honest range proofs (whole/nil, whole, single, prefix, suffix, middle, absent first, nothing-after, "+
-		"sibling boundaries) must verify with the right hasMore, every accepted tampered range claim must be true; or (b) a 2-6 block chain on the legacy or new state backend (declare / deploy / "+
+		"sibling boundaries, twin leaves with identical subtrees) must verify with the right hasMore, every accepted tampered range claim must be true; or (b) a 2-6 block chain on the legacy or new state backend (declare / deploy / "+
 		"storage writes and deletes / nonces / class replacement) queried through the real JSON-RPC server (v0_8, v0_9, v0_10) with starknet_getStorageProof for head and non-head block ids, each response "+
 		"verified by an independent spec-level verifier down to the header state root and the model's values; distinct = distinct non-empty tries (by root) + distinct chains", 40)
 }
